@@ -370,7 +370,14 @@ class Analysis:
                     if depth > 0 and tb is not None and tb.crate == cb.crate and tb.kind in ("Fn", "AssocFn") and not tb.raw.get("coroutine") and sends(tb, depth - 1):
                         return True
                 return False
-            nb = inlined(prog, co, lambda cb: not cb.raw.get("coroutine") and base(cb) and "client::Subsystem" not in cb.local_ty(0) and sends(cb))
+            def sets_loop_state(cb):
+                # `State::idling(connection, commands, events)`: a private constructor / setter of the abstract loop state
+                for _, _, st in cb.stmts():
+                    if st["k"] == "assign" and (self._is_ls_place(st["place"]) or (st["rv"]["k"] == "agg" and "loop_state" in (st["rv"].get("fields") or []))):
+                        return True
+                return False
+            nb = inlined(prog, co, lambda cb: not cb.raw.get("coroutine") and base(cb) and "client::Subsystem" not in cb.local_ty(0)
+                         and (sends(cb) or sets_loop_state(cb)))
             nb = nb if nb.raw.get("inlined") else co
             # closures that hand something to a channel from inside `map_err(|e| ..)` & co: the adaptor is written out as its match
             from .inline import desugar_adaptors
